@@ -304,3 +304,39 @@ def rel_x(fn, node, a, b, depth=1):
     l = expand(fn, node.id, t.left, depth=depth) if isinstance(t.left, ast.Name) else t.left
     c = expand(fn, node.id, t.comparators[0], depth=depth) if isinstance(t.comparators[0], ast.Name) else t.comparators[0]
     return rel(ast.Compare(left=l, ops=t.ops, comparators=[c]), a, b)
+
+
+def defer(ctx, out, cells, note):
+    """A structural rule whose clause is also decided by whole-function evaluation (a CELLS rule) gives way to it: when the cells were all
+    evaluated and all hold, every non-ok result of the structural reading (a form it does not recognise, or a guard / layout it could not find in
+    the place it looks) is replaced by an ok result that names the cells.  When a cell fails or cannot be evaluated the structural results stand."""
+    if all(r.status == "ok" for r in out):
+        return out
+    try:
+        cells = list(cells() if callable(cells) else cells)
+    except Exception:  # the cells could not be evaluated: the structural results stand
+        return out
+    if not cells or any(r is None or r.status != "ok" for r in cells):
+        return out
+    for r in out:
+        if r.status != "ok":
+            r.detail = dict(r.detail or {}, structural_reading=r.msg[:300])
+            r.status, r.msg = "ok", note
+    return out
+
+
+def deferring(struct_fn, cells_fn, spec, note, n_err=1):
+    """wrap a structural rule so that it gives way to the whole-function cells `cells_fn(ctx)` (see defer); an AnalysisError of the structural
+    reading ("form not recognised") is an undecided result that the cells may decide"""
+    from .loader import AnalysisError
+
+    def rule(ctx):
+        try:
+            out = list(struct_fn(ctx))
+        except AnalysisError as e:
+            mod, fn = get(ctx, spec)
+            out = [ctx.err(spec, str(e), fn, mod) for _ in range(n_err)]
+        return defer(ctx, out, lambda: cells_fn(ctx), note)
+    rule.__doc__ = struct_fn.__doc__
+    rule.__name__ = struct_fn.__name__
+    return rule
